@@ -567,7 +567,7 @@ class Process(StateMachine, persistence.Savable, metaclass=ProcessStateMachineMe
         exception: Optional[BaseException],
         trace: Optional[TracebackType],
     ) -> None:
-        if self.state != process_states.ProcessState.EXCEPTED:
+        if not self.has_terminated():
             self.fail(exception, trace)
 
     @contextlib.contextmanager
@@ -1091,6 +1091,10 @@ class Process(StateMachine, persistence.Savable, metaclass=ProcessStateMachineMe
         if final_state == process_states.ProcessState.CREATED:
             raise exception.with_traceback(trace)
 
+        # A terminated process stays as it is: reraise instead of entering EXCEPTED from a terminal state.
+        if initial_state is not None and self.get_state_class(cast(enum.Enum, initial_state)).is_terminal():
+            raise exception.with_traceback(trace)
+
         new_state = self._create_state_instance(
             process_states.ProcessState.EXCEPTED, exception=exception, trace_back=trace
         )
@@ -1339,6 +1343,11 @@ class Process(StateMachine, persistence.Savable, metaclass=ProcessStateMachineMe
             except Exception:
                 # Overwrite the next state to go to excepted directly
                 next_state = self.create_state(process_states.ProcessState.EXCEPTED, *sys.exc_info()[1:])
+                self._set_interrupt_action(None)
+
+            if self.has_terminated():
+                # Terminated (e.g. by ``fail``) while the step was in flight: there is nothing left to do
+                next_state = None
                 self._set_interrupt_action(None)
 
             if self._interrupt_action:
